@@ -289,7 +289,7 @@ def _build_fresh(case):
 
 # ----------------------------------------------------------------------------- bands
 @st.composite
-def band(draw, f, kinds=("default", "random", "grid", "grid", "empty", "single", "outside")):
+def band(draw, f, kinds=("default", "random", "grid", "grid", "empty", "single", "outside", "near_grid")):
     """(fmin, fmax, label): default, random, exactly on grid points, empty, single point,
     outside the grid."""
     k = draw(st.sampled_from(list(kinds)))
@@ -305,6 +305,25 @@ def band(draw, f, kinds=("default", "random", "grid", "grid", "empty", "single",
         i = draw(st.integers(0, n - 1))
         j = draw(st.integers(i, n - 1))
         return {"fmin": f[i], "fmax": f[j], "band": k}
+    if k == "near_grid":
+        # limits a few ulp to 1e-7 relative away from a grid frequency, on either side: [fmin, fmax) is decided by
+        # exact comparison, so the neighbouring grid point is in or out of the band accordingly
+        i = draw(st.integers(0, n - 1))
+        j = draw(st.integers(i, n - 1))
+
+        def near(x):
+            how = draw(st.sampled_from(["ulp_below", "ulp_above", "rel_below", "rel_above", "exact"]))
+            if how == "ulp_below":
+                return float(np.nextafter(x, -np.inf))
+            if how == "ulp_above":
+                return float(np.nextafter(x, np.inf))
+            if how == "rel_below":
+                return float(x * (1.0 - draw(st.sampled_from([1e-7, 1e-9, 1e-12]))))
+            if how == "rel_above":
+                return float(x * (1.0 + draw(st.sampled_from([1e-7, 1e-9, 1e-12]))))
+            return float(x)
+        lo, hi = near(f[i]), near(f[j])
+        return {"fmin": max(lo, 0.0), "fmax": hi, "band": k}
     if k == "empty":
         i = draw(st.integers(0, n - 2)) if n > 1 else 0
         lo = f[i] + (f[min(i + 1, n - 1)] - f[i]) * 0.3
